@@ -118,9 +118,33 @@ pub fn callbacks() -> u64 {
 
 pub struct Injected;
 
+thread_local! {
+    static OBSERVER: Cell<Option<*const dyn Fn(&'static str)>> = const { Cell::new(None) };
+}
+
+/// Run `f` with `obs` invoked at every user callback (Clone / eq / cmp / hash / fmt of a payload):
+/// lets an engine observe the library's state *while* a comparison or a clone is in progress.
+pub fn with_observer<R>(obs: &dyn Fn(&'static str), f: impl FnOnce() -> R) -> R {
+    struct Reset(Option<*const dyn Fn(&'static str)>);
+    impl Drop for Reset {
+        fn drop(&mut self) {
+            OBSERVER.with(|o| o.set(self.0));
+        }
+    }
+    // the pointer is only dereferenced while `obs` is alive (cleared by the guard on exit and unwind)
+    let p: *const dyn Fn(&'static str) = unsafe { std::mem::transmute::<&dyn Fn(&'static str), &'static dyn Fn(&'static str)>(obs) };
+    let _g = Reset(OBSERVER.with(|o| o.replace(Some(p))));
+    f()
+}
+
 /// A user callback is being invoked: count it, maybe panic.
 pub fn callback_point(what: &'static str) {
     CALLBACKS.with(|c| c.set(c.get() + 1));
+    if let Some(p) = OBSERVER.with(|o| o.take()) {
+        // not re-entrant: the observer may itself trigger callbacks
+        unsafe { (*p)(what) };
+        OBSERVER.with(|o| o.set(Some(p)));
+    }
     let fire = PANIC_AT.with(|p| {
         let v = p.get();
         if v > 0 {
@@ -518,7 +542,7 @@ impl<P: Payload> Probe for P {
 
 /// A payload WITHOUT drop glue (`mem::needs_drop` is false): reads and writes are still
 /// instrumented for the schedule engine, but there is no identity and no destructor.
-#[derive(PartialEq, Eq, Hash, Debug, Default)]
+#[derive(Hash, Debug, Default)]
 #[repr(C)]
 pub struct Plain<A: Al> {
     _a: [A; 0],
@@ -526,6 +550,20 @@ pub struct Plain<A: Al> {
 }
 pub type Plain8 = Plain<A8>;
 pub type Plain16 = Plain<A16>;
+
+impl<A: Al> PartialEq for Plain<A> {
+    fn eq(&self, o: &Self) -> bool {
+        callback_point("eq");
+        self.val == o.val
+    }
+}
+impl<A: Al> Eq for Plain<A> {}
+impl<A: Al> PartialOrd for Plain<A> {
+    fn partial_cmp(&self, o: &Self) -> Option<CmpOrdering> {
+        callback_point("partial_cmp");
+        self.val.partial_cmp(&o.val)
+    }
+}
 
 impl<A: Al> Clone for Plain<A> {
     fn clone(&self) -> Self {
